@@ -115,6 +115,7 @@ def run_case(idx, rng, P, rep, feats=None, prop='C03'):
     r = dispatch.Run(param, rng, feats, idx=idx, level=level)
     if r.shared_pobj:
         rep.count('cases_with_shared_parameter_object')
+    rep.count('class_values_changed_before_first_instance_assignment', r.class_defaults_changed)
     r.run()
     for k, v in r.stats.items():
         if k.startswith('max_'):
